@@ -7,6 +7,7 @@ CONSTANTS
   Handback = "per_run"
   NextRun = "plain"
   ImportThread = "inline"
+  TimeoutPolicy = "timeout_wins"
   defaultInitValue = defaultInitValue
 INVARIANT ExcIsTimeout
 INVARIANT ExcStable
